@@ -42,6 +42,7 @@ pub fn s_nackbuf(_run: &mut Run, a: &[&str]) -> (String, Fails) {
     tr.add_observer(egress.clone());
     let mut rtx_base: Option<u16> = None;
     let (mut monotone, mut last_t) = (true, 0u64);
+    let mut rtx_sent: u16 = 0;
     for op in &a[1..] {
         let g: Vec<&str> = op.split(':').collect();
         match g[0] {
@@ -88,7 +89,11 @@ pub fn s_nackbuf(_run: &mut Run, a: &[&str]) -> (String, Fails) {
                             Some(u) if u.header.ssrc == 7 && u.header.payload_type == 96 && u.header.sequence_number == osn && u.header.timestamp == p.header.timestamp && &u.payload[..] == b"p" => {}
                             other => f.push(("nackbuf:rtx-not-restored".into(), format!("{:?}", other.map(|u| u.header)))),
                         }
-                        items.push(format!("{osn}:{}:{}", p.header.timestamp, p.header.sequence_number.wrapping_sub(base)));
+                        // RFC 4588 §4: the retransmission stream has its own sequence number space, advanced by one per packet
+                        let off = p.header.sequence_number.wrapping_sub(base);
+                        if off != rtx_sent { f.push(("nackbuf:rtx-seq-not-consecutive".into(), format!("packet {rtx_sent} of the RTX stream carries offset {off}"))); }
+                        rtx_sent = rtx_sent.wrapping_add(1);
+                        items.push(format!("{osn}:{}:{}", p.header.timestamp, off));
                         seen.push(osn);
                     } else {
                         if latest.get(&p.header.sequence_number) != Some(&p.header.timestamp) { f.push(("nackbuf:plain-resend".into(), format!("{:?}", p.header))); }
@@ -139,6 +144,7 @@ pub fn s_gap(_run: &mut Run, a: &[&str]) -> (String, Fails) {
     let mut out = vec![]; let mut f: Fails = vec![];
     // bookkeeping for the oracle: highest sequence number accepted so far on the current SSRC
     let mut cur: Option<(u32, u16)> = None; let mut nacked: Vec<u16> = vec![];
+    let mut plen_before = 0usize;
     for t in a {
         let (s, q) = t.split_once(':').unwrap();
         let (ssrc, seq): (u32, u16) = (s.parse().unwrap(), q.parse().unwrap());
@@ -171,6 +177,9 @@ pub fn s_gap(_run: &mut Run, a: &[&str]) -> (String, Fails) {
             }
         }
         let plen = h.verif_pending_len();
+        // "bound pending set similarly to the gap cap": an eviction leaves exactly MAX_RECEIVER_NACK_GAP entries
+        if lost.is_some() && plen < plen_before && plen != 128 { f.push(("gap:pending-eviction-size".into(), format!("{plen_before} -> {plen}"))); }
+        plen_before = plen;
         // the pending set is bounded: it never exceeds twice the NACK cap, and a step that would is cut back to the cap
         if plen > 256 { f.push(("gap:pending-unbounded".into(), format!("{plen}"))); }
         out.push(format!("{}#{plen}", match lost { None => "n".to_string(), Some(l) => format!("k{}", if l.is_empty() { "-".into() } else { l.iter().map(|x| x.to_string()).collect::<Vec<_>>().join(";") }) }));
